@@ -247,7 +247,7 @@ type bsiH interface {
 	runOpt()
 	parOr(par int, others []bsiH)
 	add(other bsiH)
-	copyBSI(method int, fs fsArg, seed uint64) (bsiH, string, error)
+	copyBSI(method int, fs fsArg, seed uint64, recv bsiH) (bsiH, string, error)
 	equals(other bsiH) (bool, bool)
 	// queries
 	compare(par, op int, c1, c2 *big.Int, viaBig bool, fs fsArg) (colres, string)
@@ -377,7 +377,7 @@ func (o *ObjBSI64) add(other bsiH) { o.B.Add(other.(*ObjBSI64).B) }
 
 var copyNames = []string{"Clone", "NewBSIRetainSet", "MarshalBinary-UnmarshalBinary", "WriteTo-ReadFrom"}
 
-func (o *ObjBSI64) copyBSI(method int, f fsArg, seed uint64) (bsiH, string, error) {
+func (o *ObjBSI64) copyBSI(method int, f fsArg, seed uint64, recv bsiH) (bsiH, string, error) {
 	n := &ObjBSI64{M: map[uint64]*big.Int{}, Prov: copyNames[method] + " of " + o.Prov, NonNeg: o.NonNeg}
 	note := ""
 	switch method {
@@ -419,6 +419,11 @@ func (o *ObjBSI64) copyBSI(method int, f fsArg, seed uint64) (bsiH, string, erro
 			note = "receiver NewBSI(max,min) as the source; "
 		} else {
 			n.B = roaring64.NewDefaultBSI()
+			// reading back into an index that already held something else (auto-sized, possibly wider)
+			if r64, ok := recv.(*ObjBSI64); ok && seed&4 != 0 && r64 != nil && r64.B != nil && !r64.Fixed {
+				n.B = r64.B
+				note = "previously used auto-sized receiver; "
+			}
 		}
 		p, err := n.B.ReadFrom(rd)
 		if err != nil {
@@ -663,7 +668,7 @@ func (o *ObjBSI32) parOr(par int, others []bsiH) {
 	o.B.ParOr(par, l...)
 }
 func (o *ObjBSI32) add(other bsiH) { o.B.Add(other.(*ObjBSI32).B) }
-func (o *ObjBSI32) copyBSI(method int, f fsArg, seed uint64) (bsiH, string, error) {
+func (o *ObjBSI32) copyBSI(method int, f fsArg, seed uint64, recv bsiH) (bsiH, string, error) {
 	n := &ObjBSI32{M: map[uint64]int64{}, Prov: copyNames[method] + " of " + o.Prov, NonNeg: o.NonNeg}
 	note := ""
 	switch method {
@@ -1817,7 +1822,7 @@ func regBSIUpdates(F *bsiFam) {
 			var n bsiH
 			var note string
 			var err error
-			if w.try("C19", func() { n, note, err = src.copyBSI(method, fs, st.A[5]) }) {
+			if w.try("C19", func() { n, note, err = src.copyBSI(method, fs, st.A[5], F.get(w, st.S[0])) }) {
 				return
 			}
 			if err != nil {
